@@ -342,6 +342,23 @@ def special_scenarios():
                                {"label": "tail", "inputs": [["d", ["S", "dep", []]]], "logic": ["fn", "echo"]}]
                 sc["cell"] = f"hidden-ref form={form} site={site} src={cls}"
                 yield sc
+    # (2a) `steps` used AS A WHOLE: it must hold exactly the referenced steps (not more: no other step's, no other
+    #      run's, no other workflow's values)
+    for which in ("aaa", "bbb", "both", "none"):
+        refs_in = {"aaa": [["x", ["S", "aaa", ["got", "v"]]]], "bbb": [["y", ["S", "bbb", ["got", "v"]]]],
+                   "both": [["x", ["S", "aaa", ["got", "v"]]], ["y", ["S", "bbb", ["got", "v"]]]], "none": []}[which]
+        whole = [["seen", ["SA"]], ["n", ["SZ"]], ["has_a", ["SI", "aaa"]], ["has_b", ["SI", "bbb"]], ["has_z", ["SI", "zzz"]]]
+        sc = copy.deepcopy(base)
+        sc["steps"] = [{"label": "aaa", "inputs": [["v", C(1)]], "logic": ["fn", "echo"]},
+                       {"label": "bbb", "inputs": [["v", C(2)]], "logic": ["fn", "echo"]},
+                       {"label": "ccc", "inputs": [["v", ["S", "bbb", ["got", "v"]]], ["w", ["S", "aaa", ["got"]]]], "logic": ["fn", "echo"]},
+                       {"label": "ddd", "inputs": refs_in + whole, "logic": ["fn", "echo"], "state": [["d", ["V", ["got", "seen"]]]]},
+                       {"label": "eee", "inputs": [["k", ["S", "ccc", ["got", "v"]]], ["seen", ["SA"]]],
+                        "skip": ["SI", "aaa"], "logic": ["fn", "echo"]},
+                       {"label": "fff", "inputs": [["k", ["S", "ddd", []]], ["sel", C("one")]],
+                        "logic": ["switch", ["SZ"], [["one", ["fn", "echo"], True]]]}]
+        sc["cell"] = f"whole-steps refs={which}"
+        yield sc
     # (2b) composite Logic that does not finish Ok: a sub-workflow whose inner steps are all skipped / waiting /
     #      failed, a forEach with one non-Ok item — each with a dependent
     for inner in (["skip"], ["skip", "skip"], ["depskip"], ["retry7"], ["ok", "permfail"], ["skip", "ok"], ["ok"]):
